@@ -42,12 +42,16 @@ def c20_stages(ctx):
     if res.get("TestDeviant/identity") != "pass":
         c20_div(ctx, "c20 identity-wrapper-rejected", "the wrapper without deviation must be accepted")
     detected, undetected, unexercised = [], [], []
+    floor = set(l.strip() for l in open(os.path.join(VERIF, "lib", "c20_detected_floor.txt")) if l.strip() and not l.startswith("#"))
     for d in deviants:
         if d == "identity":
             continue
         r = res.get("TestDeviant/" + d)
         if fired.get(d, 0) == 0:
             unexercised.append(d)
+            if d in floor:
+                c20_div(ctx, "c20 no-longer-exercised %s" % d, "the suite rejected this deviant at the pinned commit (lib/c20_detected_floor.txt); now no scenario reaches the deviating sub-case, so the deviation passes unnoticed",
+                        call="VERIF_C20_ONLY=%s go test -tags verif -run TestDeviant ./c20" % d)
         elif r == "fail":
             detected.append(d)
         else:
